@@ -146,6 +146,12 @@ def build_hypergraph(case):
     else:
         h = Hypergraph(weighted=weighted)
         trace.append("Hypergraph(weighted=%r)" % weighted)
+        if len(recs) % 2:
+            # the nodes are declared first, in ONE bulk call, and get their hyperedges later
+            # (per-node tables created by the bulk call must be independent of each other)
+            first = dedupe([n for e in recs for n in e] + [U[i % len(U)] for i in case["isolated"]])
+            h.add_nodes(list(first))
+            trace.append("add_nodes(%r)" % (list(first),))
         for e in recs:
             h.add_edge(tuple(e), **({"weight": 2} if weighted else {}))
             trace.append("add_edge(%r)" % (tuple(e),))
